@@ -4,14 +4,15 @@ Property theorems only. Model: Model/CallLife (one session, any number of calls,
 the reader, handler goroutines, the disconnect path, the closer, the environment); invariants in
 Lemmas/CallLife.
 
-The code as it is does NOT satisfy two of the full-strength statements; for each the full statement is
-kept in a comment, the part that holds is proved as `_partial`, and the violating run is proved as a
-`_witness`:
-  * at most once fails when `bindReply` binds a call that is already bound or already completed (it
-    checks neither): a duplicate REPLY racing the first reply's `done()`, or an early REPLY racing a
-    failing write (`C02_double_completion_witness`, `C02_early_reply_witness`);
-  * no-hang fails when the read loop leaves with a call's mutex held — REPLY with codec id 0 and a
-    non-empty body for a non-bytes result, or a decoder panic (`C02_nilcodec_wedge_witness`).
+Both defects that blocked the full-strength statements are repaired:
+  * fix C02b: `bindReply` refuses a call that is already bound or already completed (a duplicate REPLY
+    racing the first reply's `done()`, an early REPLY racing a failing write): `C02_at_most_once` holds
+    without any hypothesis, the former witnesses are now runs with exactly one completion
+    (`C02_duplicate_and_early_reply_harmless`);
+  * fix C02a: the read loop never leaves with a call's mutex held (`C02_no_reader_lock`,
+    `C02_bound_reply_completes`);
+  * fix C02c: a request above the size limit fails its write with 104 instead of panicking inside `Pack`
+    (`C02_oversize_request_completes`).
 -/
 import Teleport.Lemmas.CallLife
 namespace Teleport
@@ -20,76 +21,83 @@ open CallLife
 
 /-! ## at most once -/
 
-/- Full-strength statement (FALSE for the code as it is, see `C02_double_completion_witness`):
-     theorem C02_at_most_once (s : State) (r : Reachable s) :
-         ∀ (i : Nat) (c : Call), s.calls[i]? = some c → c.doneCount ≤ 1 ∧ c.chanSends ≤ 1            -/
-
 /-- For every interleaving of any number of callers, the reader, handlers, the disconnect path, the
-    closer and the environment, and for every sequence of frames the peer sends (any seq, any decode
-    outcome): as long as `bindReply` has never bound a call that already had a reply or was already
-    completed (`rebound = false`), every call's done channel has been closed at most once, it has been
-    sent on its completion channel exactly as often, and the process has not crashed. -/
-theorem C02_at_most_once_partial (s : State) (r : Reachable s) (hb : s.rebound = false) :
+    closer and the environment, and for every sequence of frames the peer sends (any seq — including
+    duplicates of a seq and replies for seqs whose request is not written yet —, any decode outcome):
+    every call's done channel has been closed at most once, it has been sent on its completion channel
+    exactly as often, and the process has not crashed. -/
+theorem C02_at_most_once (s : State) (r : Reachable s) :
     s.crashed = false ∧
     ∀ (i : Nat) (c : Call), s.calls[i]? = some c → c.doneCount ≤ 1 ∧ c.chanSends ≤ 1 ∧ c.chanSends = c.doneCount := by
-  obtain ⟨h1, h2⟩ := ainv_reach r hb
+  obtain ⟨h1, h2⟩ := ainv_reach r
   refine ⟨h1, fun i c hc => ?_⟩
   have ci := h2 i c hc
   exact ⟨ci.le1, ci.sends ▸ ci.le1, ci.sends⟩
 
 /-- the schedule of the duplicate-reply race: the first reply is bound and its handler spawned; the
     reader looks the second reply's seq up (the call is still in the table) and waits for the mutex; the
-    first handler completes the call and unlocks; the reader binds the completed call again; the second
-    handler completes it a second time. -/
+    first handler completes the call and unlocks; the reader gets the mutex, finds the call completed
+    and drops the frame (a handler goroutine for an unknown-seq reply runs and ends). -/
 def dupRace : List Label :=
   [.issue false false false false 2, .store 0, .prewrite 0, .write 0 .ok, .unlock 0,
-   .frame (.reply 1 .ok 0), .frame (.reply 1 .ok 0), .read, .bind, .read, .hDone 0, .hUnlock 0, .bind, .hDone 0]
-
-/-- A call completes twice: two REPLY frames for one seq, the second one looked up before the first
-    one's `done()`. The call is sent twice on its completion channel and `close(doneChan)` runs a
-    second time (in Go: panic `close of closed channel` in a pool goroutine — the process dies). -/
-theorem C02_double_completion_witness :
-    ∃ s, Reachable s ∧ ∃ c, s.calls[0]? = some c ∧ c.chanSends = 2 ∧ c.doneCount = 2 ∧ s.crashed = true := by
-  have h : run State.init dupRace = some ((run State.init dupRace).getD State.init) := by decide
-  refine ⟨_, reach_run .init _ h, ?_⟩
-  decide
+   .frame (.reply 1 .ok 0), .frame (.reply 1 .ok 0), .read, .bind, .read, .hDone 0, .hUnlock 0, .bind, .hOther]
 
 /-- the early-reply schedule: the peer sends REPLY seq 1 before the request is written; the reader finds
     the stored call and waits for the mutex the caller still holds; the caller's write fails (cancelled
-    context), it completes the call and unlocks; the reader binds the completed call; the handler
-    completes it again. -/
+    context), it completes the call and unlocks; the reader gets the mutex, finds the call completed and
+    drops the frame. -/
 def earlyRace : List Label :=
   [.issue false true false false 2, .store 0, .frame (.reply 1 .ok 0), .read, .prewrite 0, .write 0 .ctxErr,
-   .failDone 0, .unlock 0, .bind, .hDone 0]
+   .failDone 0, .unlock 0, .bind, .hOther]
 
-theorem C02_early_reply_witness :
-    ∃ s, Reachable s ∧ ∃ c, s.calls[0]? = some c ∧ c.chanSends = 2 ∧ s.crashed = true := by
-  have h : run State.init earlyRace = some ((run State.init earlyRace).getD State.init) := by decide
-  refine ⟨_, reach_run .init _ h, ?_⟩
-  decide
-
-/-- non-vacuity of `C02_at_most_once_partial`: a run with a reply, a completed call and `rebound = false`. -/
-example : ∃ s, Reachable s ∧ s.rebound = false ∧ ∃ c, s.calls[0]? = some c ∧ c.doneCount = 1 := by
-  have h : run State.init (dupRace.take 11) = some ((run State.init (dupRace.take 11)).getD State.init) := by decide
-  refine ⟨_, reach_run .init _ h, ?_⟩
-  decide
+/-- The two schedules that used to complete a call twice (`c02:double-completion`) now end with the call
+    completed exactly once — by the first reply (status OK) resp. by the failed write (104) —, nothing
+    bound a second time, no crash, the reader back in its loop. -/
+theorem C02_duplicate_and_early_reply_harmless :
+    (∃ s, run State.init dupRace = some s ∧ s.crashed = false ∧ s.rpc = .reading ∧ s.otherH = 0 ∧
+      ∃ c, s.calls[0]? = some c ∧ c.chanSends = 1 ∧ c.doneCount = 1 ∧ c.stat = 0 ∧ c.mu = .free) ∧
+    (∃ s, run State.init earlyRace = some s ∧ s.crashed = false ∧ s.rpc = .reading ∧ s.otherH = 0 ∧
+      ∃ c, s.calls[0]? = some c ∧ c.chanSends = 1 ∧ c.doneCount = 1 ∧ c.stat = 104 ∧ c.hasReply = false ∧
+        c.mu = .free) := by
+  have h1 : run State.init dupRace = some ((run State.init dupRace).getD State.init) := by decide
+  have h2 : run State.init earlyRace = some ((run State.init earlyRace).getD State.init) := by decide
+  refine ⟨⟨_, h1, ?_⟩, ⟨_, h2, ?_⟩⟩ <;> decide
 
 /-! ## hostile replies -/
 
-/- Full-strength statement (FALSE, same witnesses): at most once for every frame sequence including
-   duplicates of a seq and replies for seqs not yet written. -/
-
-/-- Hostile CONTENT is harmless for at-most-once: whatever the decode outcome of a reply (ok, error with
-    a known codec, error with codec id 0, decoder panic), whatever its status, and for seqs that match no
-    pending call (unknown seq, late duplicate of a completed call — `lookup` fails, nothing is bound):
-    one more frame and any step after it keep the invariant; only a bind of an already bound/completed
-    call (flagged `rebound`) can break it. -/
-theorem C02_hostile_reply_partial (s t u : State) (r : Reachable s) (f : Frame)
-    (hf : fire s (.frame f) = some t) (l : Label) (hl : fire t l = some u) (hb : u.rebound = false) :
+/-- Hostile replies are harmless for at-most-once: whatever the decode outcome of a reply (ok, error with
+    a known codec, error with codec id 0, decoder panic), whatever its status, whatever its seq (a
+    pending call, an unknown seq, a duplicate, a seq whose request is still being written): one more
+    frame and any step after it keep every call at one completion at most and the process alive. -/
+theorem C02_hostile_reply (s t u : State) (r : Reachable s) (f : Frame)
+    (hf : fire s (.frame f) = some t) (l : Label) (hl : fire t l = some u) :
     u.crashed = false ∧ ∀ (i : Nat) (c : Call), u.calls[i]? = some c → c.doneCount ≤ 1 ∧ c.chanSends ≤ 1 :=
   have ru : Reachable u := (r.step ⟨_, hf⟩).step ⟨_, hl⟩
-  have h := C02_at_most_once_partial u ru hb
+  have h := C02_at_most_once u ru
   ⟨h.1, fun i c hc => ⟨(h.2 i c hc).1, (h.2 i c hc).2.1⟩⟩
+
+/-- a reply whose call is already bound or completed is not bound again: the reader releases the mutex
+    and goes on as for an unknown seq; no call record changes. -/
+theorem C02_replied_call_not_rebound (s t : State) (i : Nat) (d : Dec) (rs : Nat) (c : Call)
+    (hr : s.rpc = .bindWait i d rs) (hc : s.calls[i]? = some c) (hre : c.hasReply = true ∨ 1 ≤ c.doneCount)
+    (hf : fire s .bind = some t) : t.calls = s.calls ∧ t.crashed = s.crashed ∧ (t.rpc = .reading ∨ t.rpc = .discLoad) := by
+  unfold fire at hf
+  split at hf
+  · cases hf
+  simp only [hr, hc] at hf
+  by_cases hmu : c.mu ≠ .free
+  · rw [if_pos hmu] at hf; cases hf
+  rw [if_neg hmu, if_pos hre] at hf
+  simp only [State.spawnOther] at hf
+  split at hf <;> (cases hf; simp)
+
+/-- non-vacuity of `C02_replied_call_not_rebound`: after the first 12 steps of `dupRace` the reader waits
+    in `bindReply` for call 0, which has been completed by the first reply; the bind step is enabled. -/
+example : ∃ s, run State.init (dupRace.take 12) = some s ∧ s.rpc = .bindWait 0 .ok 0 ∧ (fire s .bind).isSome = true ∧
+    ∃ c, s.calls[0]? = some c ∧ c.hasReply = true ∧ c.doneCount = 1 := by
+  have h : run State.init (dupRace.take 12) = some ((run State.init (dupRace.take 12)).getD State.init) := by decide
+  refine ⟨_, h, ?_⟩
+  decide
 
 /-- a frame whose seq matches no table entry is never bound: the reader goes straight back to reading
     (or to the disconnect path) and no call record changes. -/
@@ -105,61 +113,40 @@ theorem C02_unknown_seq_not_bound (s t : State) (seq : Nat) (d : Dec) (rs : Nat)
 
 /-! ## no hang -/
 
-/- Full-strength statement (FALSE for the code as it is, see `C02_nilcodec_wedge_witness`):
+/- Full-strength statement:
      theorem C02_no_stuck (s : State) (r : Reachable s) (hq : ∀ l, l.internal = true → fire s l = none) :
          ∀ (i : Nat) (c : Call), s.calls[i]? = some c →
            (c.hasReply = true ∨ s.lost = true ∨ s.status.closed = true) → c.doneCount = 1               -/
 
-/-- the run behind defect 1: one call is written; the peer answers with a REPLY whose body decode fails
-    while the codec id is 0 (`Dec.errNil`: codec id 0, non-empty body, result not `*[]byte`); `bindReply`
-    has locked the call's mutex, the read loop leaves without spawning `handle`; the connection is lost;
-    the disconnect path reaches the cancel loop and blocks on that mutex. -/
+/-- the run behind the former defect `c02:nilcodec-reply-wedges-call`: one call is written; the peer
+    answers with a REPLY whose body decode fails while the codec id is 0 (`Dec.errNil`: codec id 0,
+    non-empty body, result not `*[]byte`); then everything settles. -/
 def wedgeRun : List Label :=
   [.issue false false false false 2, .store 0, .prewrite 0, .write 0 .ok, .unlock 0,
-   .frame (.reply 1 .errNil 0), .read, .bind, .lose, .discLoad, .discStore, .discCtxWait [0], .discPick]
+   .frame (.reply 1 .errNil 0), .read, .bind, .discLoad, .discStore, .discCtxWait [], .discPick, .discFinish]
 
-def wedged : State :=
-  { calls := [{ pc := .returned, mu := .reader, hasReply := true, stat := 0, doneCount := 0, chanSends := 0,
-                inTable := true, rstat := 0, nilRet := false, veto := false, ctxDone := false, wpanic := false,
-                bytesRes := false, cap := 2 }],
-    inq := [], lost := true, sockClosed := false, status := .passiveClosing, rpc := .discLock false 0 [],
-    cpc := .idle, otherH := 0, crashed := false, rebound := false, leaked := true }
+def unwedged : State :=
+  { calls := [{ pc := .returned, mu := .free, hasReply := true, stat := 400, doneCount := 1, chanSends := 1,
+                inTable := false, rstat := 0, rerr := true, veto := false, ctxDone := false,
+                tooBig := false, bytesRes := false, cap := 2 }],
+    inq := [], lost := false, sockClosed := true, status := .passiveClosed, rpc := .stopped,
+    cpc := .idle, otherH := 0, crashed := false, leaked := false }
 
-/-- A call hangs forever: reachable state, the reply has arrived AND the connection is lost, no internal
-    step is enabled (only new external events could change anything, and none of them releases the
-    mutex), the call is still in the pending table with its done channel open, and the session has not
-    reached a closed state (the reader itself is blocked in the cancel loop). No duplicate/early reply is
-    involved (`rebound = false`). -/
-theorem C02_nilcodec_wedge_witness :
-    Reachable wedged ∧ wedged.lost = true ∧ wedged.rebound = false ∧ wedged.status.closed = false ∧
-    (∃ c, wedged.calls[0]? = some c ∧ c.pc = .returned ∧ c.hasReply = true ∧ c.doneCount = 0 ∧ c.inTable = true) ∧
-    (∀ l : Label, l.internal = true → fire wedged l = none) := by
-  have hr : run State.init wedgeRun = some wedged := by decide
-  refine ⟨reach_run .init _ hr, rfl, rfl, rfl, ⟨_, rfl, rfl, rfl, rfl, rfl⟩, ?_⟩
-  intro l hl
-  cases l with
-  | write i o => rcases i with _ | i <;> cases o <;> simp [fire, wedged]
-  | store i => rcases i with _ | i <;> simp [fire, wedged]
-  | prewrite i => rcases i with _ | i <;> simp [fire, wedged]
-  | failDone i => rcases i with _ | i <;> simp [fire, wedged]
-  | unlock i => rcases i with _ | i <;> simp [fire, wedged]
-  | hDone i => rcases i with _ | i <;> simp [fire, wedged]
-  | hUnlock i => rcases i with _ | i <;> simp [fire, wedged]
-  | issue _ _ _ _ _ => simp [Label.internal] at hl
-  | frame _ => simp [Label.internal] at hl
-  | lose => simp [Label.internal] at hl
-  | close => simp [Label.internal] at hl
-  | _ => simp [fire, wedged]
-
-/-- The same wedge through a decoder panic with a KNOWN codec id (form codec, more values than array
-    slots): the read loop's recover goes to the disconnect path with the mutex held. -/
-theorem C02_decode_panic_wedge_witness :
-    ∃ s, Reachable s ∧ s.lost = true ∧ (∃ c, s.calls[0]? = some c ∧ c.hasReply = true ∧ c.doneCount = 0) ∧
-      s.rpc = .discLock false 0 [] ∧ ∃ c, s.calls[0]? = some c ∧ c.mu = .reader := by
-  have h : run State.init (wedgeRun.set 5 (.frame (.reply 1 .panic 0))) =
-      some ((run State.init (wedgeRun.set 5 (.frame (.reply 1 .panic 0)))).getD State.init) := by decide
-  refine ⟨_, reach_run .init _ h, ?_⟩
+/-- The reply that used to wedge the call and the reader now completes the call exactly once with
+    400 (the reader runs `handleReply` itself before it leaves the loop), the mutex is free again, and
+    the session reaches a closed state by itself; the same for a decoder panic. -/
+theorem C02_bound_reply_completes :
+    run State.init wedgeRun = some unwedged ∧
+    run State.init (wedgeRun.set 5 (.frame (.reply 1 .panic 0))) = some unwedged := by
   decide
+
+/-- In every reachable state — any interleaving, any frames, any decode outcomes — no call's mutex is
+    held by the reader: whenever the reader binds a
+    reply and then leaves the read loop (decode error under codec id 0, decoder panic, session no longer
+    reading) it has completed and unlocked the call in the same step. -/
+theorem C02_no_reader_lock (s : State) (r : Reachable s) :
+    ∀ (i : Nat) (c : Call), s.calls[i]? = some c → c.mu ≠ .reader :=
+  fun i c h => ((ainv_reach r).2 i c h).nord
 
 /- The part of `C02_no_stuck` that is proved here is the "reply has arrived" disjunct. The "connection
    lost" and "session closed" disjuncts (completion through the cancel loop of readDisconnected and through
@@ -167,20 +154,18 @@ theorem C02_decode_panic_wedge_witness :
    DESIGN §5 C02 (status never returns to Ok; every written, uncompleted call is in the Range snapshot; a
    visited call is completed); they are exercised by the correspondence families F3–F6 only. -/
 
-/-- In every reachable state in which no internal step is enabled, in which `bindReply` never re-bound a
-    bound/completed call, and in which no call's mutex was left locked by the reader (the hypothesis
-    "no reply with a decode error under codec id 0 / decoder panic for a pending seq": that is the only
-    way `mu = reader` arises), every call whose reply has arrived has completed exactly once. -/
-theorem C02_no_stuck_partial (s : State) (r : Reachable s) (hb : s.rebound = false)
-    (hw : ∀ (i : Nat) (c : Call), s.calls[i]? = some c → c.mu ≠ .reader)
+/-- The "reply has arrived" disjunct of `C02_no_stuck`, without further hypotheses: in every reachable
+    state in which no internal step is enabled, every call whose reply has been bound — whatever its
+    decode outcome: ok, error under a known codec, error under codec id 0, decoder panic — has
+    completed exactly once. -/
+theorem C02_no_stuck_partial (s : State) (r : Reachable s)
     (hq : ∀ l : Label, l.internal = true → fire s l = none) :
     ∀ (i : Nat) (c : Call), s.calls[i]? = some c → c.hasReply = true → c.doneCount = 1 ∧ c.chanSends = 1 := by
   intro i c hci hr
-  obtain ⟨hcr, hall⟩ := ainv_reach r hb
+  obtain ⟨hcr, hall⟩ := ainv_reach r
   have ci := hall i c hci
-  rcases ci.replied hr with h | h | h
+  rcases ci.replied hr with h | h
   · have := ci.le1; have := ci.sends; omega
-  · exact absurd h (hw i c hci)
   · exfalso
     have hd0 := ci.hpre h
     have hn := hq (.hDone i) rfl
@@ -192,23 +177,19 @@ theorem C02_no_stuck_partial (s : State) (r : Reachable s) (hb : s.rebound = fal
 /-- the state after one call answered by a valid reply, everything settled. -/
 def answered : State :=
   { calls := [{ pc := .returned, mu := .free, hasReply := true, stat := 0, doneCount := 1, chanSends := 1,
-                inTable := false, rstat := 0, nilRet := false, veto := false, ctxDone := false, wpanic := false,
+                inTable := false, rstat := 0, rerr := false, veto := false, ctxDone := false, tooBig := false,
                 bytesRes := false, cap := 2 }],
     inq := [], lost := false, sockClosed := false, status := .ok, rpc := .reading, cpc := .idle, otherH := 0,
-    crashed := false, rebound := false, leaked := false }
+    crashed := false, leaked := false }
 
-/-- non-vacuity of `C02_no_stuck_partial`: `answered` is reachable, satisfies all three hypotheses and has
-    a call with a reply. -/
-example : Reachable answered ∧ answered.rebound = false ∧
-    (∀ (i : Nat) (c : Call), answered.calls[i]? = some c → c.mu ≠ .reader) ∧
+/-- non-vacuity of `C02_no_stuck_partial`: `answered` is reachable, quiescent and has a call with a
+    reply. -/
+example : Reachable answered ∧
     (∀ l : Label, l.internal = true → fire answered l = none) ∧
     ∃ c, answered.calls[0]? = some c ∧ c.hasReply = true := by
   have hr : run State.init [.issue false false false false 2, .store 0, .prewrite 0, .write 0 .ok, .unlock 0,
       .frame (.reply 1 .ok 0), .read, .bind, .hDone 0, .hUnlock 0] = some answered := by decide
-  refine ⟨reach_run .init _ hr, rfl, ?_, ?_, ⟨_, rfl, rfl⟩⟩
-  · intro i c h
-    rcases i with _ | i <;> simp [answered] at h
-    subst h; simp
+  refine ⟨reach_run .init _ hr, ?_, ⟨_, rfl, rfl⟩⟩
   · intro l hl
     cases l with
     | write i o => rcases i with _ | i <;> cases o <;> simp [fire, answered]
@@ -223,6 +204,32 @@ example : Reachable answered ∧ answered.rebound = false ∧
     | lose => simp [Label.internal] at hl
     | close => simp [Label.internal] at hl
     | _ => simp [fire, answered]
+
+/-! ## request above the size limit -/
+
+/-- A request above the message size limit (`tooBig`): the only outcome of its write is the size-limit
+    error — nothing is written, no panic — and the caller completes the call itself with 104 before
+    `AsyncCall` returns: completed exactly once, removed from the pending table, mutex released. (Before
+    fix C02c jsonproto/pbproto panicked inside `Pack`, `AsyncCall` swallowed the panic and returned a
+    nil `CallCmd` with the call still pending.) -/
+theorem C02_oversize_request_completes :
+    (∀ o : WOut, o ≠ .tooBig →
+      (run State.init [.issue false false true false 2, .store 0, .prewrite 0, .write 0 o]) = none) ∧
+    ∃ s, run State.init [.issue false false true false 2, .store 0, .prewrite 0, .write 0 .tooBig, .failDone 0,
+        .unlock 0] = some s ∧
+      ∃ c, s.calls[0]? = some c ∧ c.pc = .returned ∧ c.doneCount = 1 ∧ c.chanSends = 1 ∧ c.stat = 104 ∧
+        c.inTable = false ∧ c.mu = .free := by
+  refine ⟨?_, ?_⟩
+  · intro o ho
+    cases o with
+    | tooBig => exact absurd rfl ho
+    | err code => simp [run, fire, State.init, Call.fresh, State.setCall]
+    | _ => decide
+  · have h : run State.init [.issue false false true false 2, .store 0, .prewrite 0, .write 0 .tooBig, .failDone 0,
+        .unlock 0] = some ((run State.init [.issue false false true false 2, .store 0, .prewrite 0, .write 0 .tooBig,
+        .failDone 0, .unlock 0]).getD State.init) := by decide
+    refine ⟨_, h, ?_⟩
+    decide
 
 /-! ## progress -/
 
